@@ -56,6 +56,7 @@ K_GUARD = 'v1-shared-pattern-object-first-type-wins'
 K_NAME = 'v1-pattern-function-name-collision'
 K_STICKY = 'v1-annotated-pattern-leaks-to-later-fields'
 K_QUOTE = 'v1-pattern-text-quote-or-brace'
+K_INNER = 'v1-inner-annotated-pattern-leaks-to-siblings'
 
 
 # --------------------------------------------------------------------------- directives / truncation (reference)
@@ -221,6 +222,8 @@ def ty_src(t, prefix=''):
     if k == 'pat':
         return f'P{t["pid"]}'
     a = t['a']
+    if k == 'annot':
+        return f'Annotated[{ty_src(a[0], prefix)}, P{t["pid"]}]'
     if k == 'optional':
         return f'Optional[{ty_src(a[0], prefix)}]'
     if k == 'list':
@@ -312,6 +315,8 @@ def leaves(t, ann, out):
         out.append((t['kind'], t['sub'], ann, False))
     elif k == 'pat':
         out.append((t['kind'], False, t['pid'], True))
+    elif k == 'annot':
+        leaves(t['a'][0], t['pid'], out)         # the pattern in force below an inner Annotated is its own
     elif k not in SCALAR_NODES:
         for x in t['a']:
             leaves(x, ann, out)
@@ -726,6 +731,73 @@ def gen_literal_class(rng):
     return cm, 'literal'
 
 
+# DIMENSION an Annotated[T, Pattern] INSIDE a field's annotation (its own seeded stream, v1: the engine reads Annotated at any depth): the
+# inner pattern holds for the positions below it and for nothing else -- the other positions of the field keep the pattern annotating the
+# container (or none: ISO only).  Containers whose elements mix inner-annotated and plain positions, with / without an outer pattern.
+# KNOWN (genuine defect of the unchanged v1 engine, findings/v1-inner-annotated-pattern-leaks-to-siblings.py): positions generated AFTER
+# an inner Annotated in the same field are read with the inner pattern; failures of fields of that shape are attributed to that entry
+# while the probe shows the defect.  (Oracle only: the model's type universe has no inner Annotated.)
+def inner_leak_hazard(t):
+    """a date / time position follows, in generation order, an inner Annotated node that does not contain it"""
+    state = {'left': False, 'hit': False}
+
+    def walk(x):
+        k = x['k']
+        if k in ('leaf', 'pat'):
+            if state['left']:
+                state['hit'] = True
+        elif k == 'annot':
+            for y in x['a']:
+                walk(y)
+            state['left'] = True
+        elif k not in SCALAR_NODES:
+            for y in x['a']:
+                walk(y)
+    walk(t)
+    return state['hit']
+
+
+def gen_inner_class(rng):
+    cm = {'engine': 'v1', 'pats': [], 'fields': []}
+    kinds = ['date', 'time', 'datetime']
+    outer = None
+    k0 = rng.choice(kinds)
+    if rng.random() < 0.7:
+        outer = new_pat(rng, cm, k0, 'ann', tz_ok=False)
+
+    def inner(kind, simple=False):
+        pid = new_pat(rng, cm, kind, 'ann', tz_ok=rng.random() < 0.3)
+        lf = leaf_t(kind, rng.random() < 0.2)
+        body = lf if simple or rng.random() < 0.75 else rng.choice([T('list', lf), T('tuple', lf, T('str')), T('dict', T('str'), lf)])
+        return {'k': 'annot', 'pid': pid, 'a': [body]}
+
+    def plain(kind):
+        return leaf_t(kind, rng.random() < 0.2)
+
+    def elem(simple=False):
+        kind = k0 if rng.random() < 0.7 else rng.choice(kinds)
+        return inner(kind, simple) if rng.random() < 0.5 else plain(kind)
+
+    r = rng.random()
+    if r < 0.45:
+        n = rng.choice([2, 2, 3])
+        els = [elem() for _ in range(n)]
+        els[rng.randrange(n)] = inner(k0)
+        ty = T('tuple', *els)
+    elif r < 0.6:
+        ty = T('list', inner(k0))
+    elif r < 0.8:
+        ty = T('dict', elem(True), inner(k0)) if rng.random() < 0.5 else T('dict', inner(k0, True), elem())
+    elif r < 0.9:
+        ty = T('dict', T('str'), T('tuple', inner(k0), plain(k0)))
+    else:
+        ty = T('tuple', T('list', inner(k0)), plain(k0), T('str'))
+    cm['fields'].append({'ty': ty, 'ann': outer})
+    if rng.random() < 0.3:
+        add_field(rng, cm, rng.choice(kinds), False, 'plain', container=False)      # a later field: no pattern at all
+    return cm, 'inner'
+
+
 def gen_family_class(rng, j):
     return gen_helper_class(rng) if j % 2 == 0 else gen_iso_shaped_class(rng)
 
@@ -855,6 +927,8 @@ def gen_doc(rng, cm, t, ann, mode, law, top=True):
         s = gen_text(rng, cm, spec, m, law)
         return s, expect_leaf(cm['engine'], spec, s)
     a = t['a']
+    if k == 'annot':
+        return gen_doc(rng, cm, a[0], t['pid'], mode, law, top)
     if k == 'optional':
         if rng.random() < (0.5 if mode == 'none' else 0.15):
             return None, ('ok', [['none']])
@@ -1082,12 +1156,18 @@ class QQ(JSONWizard):
     class _(JSONWizard.Meta):
         v1 = True
     t: VTimePattern["%H o'clock {x}"] = None
+
+@dataclass
+class QI(JSONWizard):
+    class _(JSONWizard.Meta):
+        v1 = True
+    f: Annotated[tuple[Annotated[date, VPattern('%Y.%m.%d')], date], VPattern('%d/%m/%Y')] = None
 '''
 
 
 def probe_quirks():
     """witness inputs of the four known deviation modes, run on the implementation (real classes in a real module)"""
-    q = dict(dash=False, guard=False, name=False, sticky=False, quote=False)
+    q = dict(dash=False, guard=False, name=False, sticky=False, quote=False, inner=False)
     built = model.Built(T('any'), extra_src=PROBE_SRC)
     try:
         QD, QG, QN, QS = (built.get(n) for n in ('QD', 'QG', 'QN', 'QS'))
@@ -1113,6 +1193,10 @@ def probe_quirks():
             q['quote'] = built.get('QQ').from_dict({'t': "07 o'clock {x}"}).t != dt.time(7)
         except Exception:
             q['quote'] = True
+        try:
+            q['inner'] = built.get('QI').from_dict({'f': ['2024.03.09', '10/03/2024']}).f != (dt.date(2024, 3, 9), dt.date(2024, 3, 10))
+        except Exception:
+            q['inner'] = True
     finally:
         built.close()
     return q
@@ -1196,7 +1280,7 @@ def dumped_leaves_ok(t, d):
     if k in ('leaf', 'pat'):
         return isinstance(d, str) and iso_read(t['kind'], d) is not None
     a = t['a']
-    if k == 'optional':
+    if k in ('optional', 'annot'):
         return dumped_leaves_ok(a[0], d)
     if k == 'list':
         return isinstance(d, list) and all(dumped_leaves_ok(a[0], x) for x in d)
@@ -1219,7 +1303,7 @@ def model_ty(t):
     k = t['k']
     if k in ('str', 'leaf', 'pat'):
         return t
-    if k in ('int', 'float', 'none', 'union'):
+    if k in ('int', 'float', 'none', 'union', 'annot'):
         return None
     a = [model_ty(x) for x in t['a']]
     if any(x is None for x in a):
@@ -1258,6 +1342,8 @@ def attribute(cm, hz, quirks, f, doc, what_kind):
             return key
     if quirks.get('quote') and quote_hazard(cm) and what_kind in ('value', 'neither'):
         return K_QUOTE
+    if quirks.get('inner') and inner_leak_hazard(f['ty']):
+        return K_INNER
     return None
 
 
@@ -1285,6 +1371,7 @@ def run(ctx: C.Ctx):
                 'values valid under both readings; the declared zone of the v1 Aware variants (any key of the IANA table by lexical class: -, +, digits, '
                 'several /, no /; ZoneInfo objects; fixed-offset timezone objects with / without a name) x subscripted / Annotated form x every position; '
                 'literal text between the directives of a pattern (quotes, braces, backslashes, %%, brackets, words; both engines); '
+                'Annotated[T, Pattern] inside a field annotation next to plain positions, with / without an outer pattern (v1; oracle only); '
                 'per field documents in modes pattern / ISO / mixed / junk / other-pattern / number / null; each through from_dict, to_dict, '
                 'from_dict again on the implementation (oracle: stdlib strptime/fromisoformat readings, truncation law checked) and through the '
                 'Lean model with stdlib-backed tables. Non-trivial = distinct (class model, field, document).')
@@ -1301,16 +1388,19 @@ def run(ctx: C.Ctx):
     nfam = ctx.quick(500, 5000)
     nzone = ctx.quick(400, 4000)
     nlit = ctx.quick(300, 3000)
+    ninner = ctx.quick(300, 3000)
     main_rng, frng, zrng = rng, random.Random(f'C17:{ctx.seed}:families'), random.Random(f'C17:{ctx.seed}:zones')
-    lrng = random.Random(f'C17:{ctx.seed}:literals')
+    lrng, irng = random.Random(f'C17:{ctx.seed}:literals'), random.Random(f'C17:{ctx.seed}:inner')
     reqs, pend = [], []
-    for i in range(ncls + nfam + nzone + nlit):
+    for i in range(ncls + nfam + nzone + nlit + ninner):
         if ctx.done(i):
             break
         # the directed families have their own seeded streams (the main stream is the same with and without them)
-        rng = main_rng if i < ncls else frng if i < ncls + nfam else zrng if i < ncls + nfam + nzone else lrng
+        rng = (main_rng if i < ncls else frng if i < ncls + nfam else zrng if i < ncls + nfam + nzone else
+               lrng if i < ncls + nfam + nzone + nlit else irng)
         cm, cat = (gen_class(rng) if i < ncls else gen_family_class(rng, i - ncls) if i < ncls + nfam else
-                   gen_zone_class(rng) if i < ncls + nfam + nzone else gen_literal_class(rng))
+                   gen_zone_class(rng) if i < ncls + nfam + nzone else gen_literal_class(rng) if i < ncls + nfam + nzone + nlit else
+                   gen_inner_class(rng))
         if not cm['fields']:
             continue
         pick_specs(rng, cm)
